@@ -629,6 +629,9 @@ def run_shard(spec, ctx):
     elif spec[0] == "iso":
         for name in spec[1]:
             check_iso(ctx, name, v, ctx.tier)
+    for sig, viol in ctx.violations.items():        # tell replay() which signature the artefact stands for
+        if isinstance(viol.get("case"), dict):
+            viol["case"]["expect"] = sig
 
 
 def finalize(ctx, tier, seed):
@@ -674,7 +677,29 @@ def finalize(ctx, tier, seed):
         assert not strict or "iso-drew:" + fam in ctx.flags, f"{fam} never drew from the explicit generator"
 
 
+REPLAY_ATTEMPTS = 6
+
+
 def replay(case, ctx):
+    """Re-run the one recorded case.  A defect of this property can be genuinely nondeterministic (e.g. a generator
+    seeded from real OS entropy at import time, before the harness owns the entropy): which of the comparisons of a
+    node trips first may then differ from run to run.  The artefact therefore names the signature it stands for and
+    the case is repeated (at most REPLAY_ATTEMPTS times) until that signature is observed; only it is reported.  For
+    the deterministic cases (everything on the unchanged tree) the first attempt reproduces it."""
+    from ..core import Ctx
+    expect = case.get("expect")
+    for _ in range(REPLAY_ATTEMPTS if expect else 1):
+        c2 = Ctx(ctx.pid, ctx.tier, ctx.seed)
+        _replay_once(case, c2)
+        if expect is None:
+            ctx.violations.update(c2.violations)
+            return
+        if expect in c2.violations:
+            ctx.violations[expect] = c2.violations[expect]
+            return
+
+
+def _replay_once(case, ctx):
     kind = case.get("kind")
     if kind == "scan":
         scan(ctx)
